@@ -1,6 +1,7 @@
-(** static tie, group TARGET, part 1 (independent of the generated definitions): the hypotheses of
-    [shear_solver_exact] / [gen_solver_exact] are satisfiable for EVERY tensor c - an explicit frame (lam, T)
-    of the c44 strain (Shear.c44_frame_exists) and the rotated dictionary crot = rotate T c. *)
+(** static tie, group TARGET, non-vacuity (independent of the generated definitions; compiled next to
+    Tie_shear_target.v): the hypotheses of [shear_solver_exact] / [gen_solver_exact] are satisfiable for EVERY
+    tensor c - an explicit frame (lam, T) of the c44 strain (Shear.c44_frame_exists) and the rotated dictionary
+    crot = rotate T c, which is well defined on canonical keys because [rotate] is symmetric. *)
 From Coq Require Import Reals List Bool Arith ZArith Lia Lra.
 From Cij Require Import Ops ROps VoigtBase Voigt ShearModel Shear.
 Import ListNotations.
@@ -20,5 +21,8 @@ Proof.
   split; [unfold shear_keys, all_keys; cbn; tauto|]. split; [exact H|].
   intros c i j Hi Hj.
   destruct i as [|[|[|i]]]; [| | |lia]; destruct j as [|[|[|j]]]; try lia;
-    cbn [canon4 vsort v_of Nat.ltb Nat.leb fst snd Nat.sub]; first [reflexivity | apply rotate_sym].
+    cbn [canon4 vsort v_of Nat.ltb Nat.leb fst snd Nat.sub];
+    lazymatch goal with |- ?x = ?x => reflexivity | |- _ => apply rotate_sym end.
 Qed.
+
+Definition tie_group_frame := (rotate_sym, solver_hypotheses_satisfiable).
